@@ -5,6 +5,7 @@ import (
 	"time"
 
 	"github.com/go-netty/go-netty/internal/vrt"
+	"github.com/go-netty/go-netty/transport"
 	"github.com/go-netty/go-netty/utils/pool/pbytes"
 )
 
@@ -30,6 +31,8 @@ func zzOp(ch *channel, op int, tag byte) {
 		ch.Close(nil)
 	case 8:
 		ch.ReadFrom(&zzFragReader{data: []byte{tag, 5}})
+	case 10:
+		ch.CtxWritev(context.Background(), [][]byte{{tag}, {6}})
 	case 9:
 		if zzParentCancel != nil {
 			zzParentCancel() // the parent context ends (what Bootstrap.Shutdown does before closing the channels)
@@ -59,6 +62,24 @@ func ZZ_C12_Channel(q, opA, opB, opC int) {
 	}
 	vrt.Quiesce()
 	vrt.Reach("c12-channel-done")
+}
+
+// ZZ_C12_Buffered: concurrent writers on a channel that sits on the repository's REAL write-buffered transport
+// (transport.NewTransport over a mock connection): the bufio.Writer inside it is repository-allocated state, so an
+// entry point that touches the transport outside the channel's write lock is reported by the monitor.
+func ZZ_C12_Buffered(q, opA, opB int) {
+	conn := &zzConn{}
+	tr := transport.NewTransport(conn, 0, 8)
+	pl := NewPipeline()
+	ch := newChannelWith(context.Background(), pl, tr, AsyncExecutor(), 1, q, true).(*channel)
+	pl.(*pipeline).channel = ch
+	vrt.Facet("opA", opA)
+	vrt.Facet("opB", opB)
+	vrt.Go("a", func() { zzOp(ch, opA, 0xa0) })
+	vrt.Go("b", func() { zzOp(ch, opB, 0xb0) })
+	vrt.Quiesce()
+	vrt.Assert(len(conn.received) == 4, "c12-buffered-both-writes-arrive")
+	vrt.Reach("c12-buffered-done")
 }
 
 // ZZ_C12_Bootstrap: Listen/Async/Listener.Close/Shutdown/Connect on one bootstrap from several goroutines.
